@@ -818,14 +818,13 @@ c10_rule = ("histories of 2-12 operations over four variables holding arrays (in
 
 # =============================================================== C12: an expression means the same wherever it is written
 
-def c12_families(tier, seed, ids=None):
+def c12_families(tier, seed, ids=None, ck=None):
     ids = ids or Ids()
-    e1 = gens.exprs_depth1()
     e2 = gens.exprs_depth2()
     if tier == "quick":
-        e1 = e1[seed % 5::5]
         e2 = e2[seed % 9::9]
-    out = [("expressions depth 1 x contexts", gens.context_sessions(e1, first_id=1), ("value",)),
+    # the depth-1 product is enumerated by TLC itself from CalcEnum.tla
+    out = [("expressions depth 1 x contexts (enumerated by TLC from CalcEnum.tla)", gens.enum_sessions(seed, 5 if tier == "quick" else 1, first_id=1, ck=ck), ("value",)),
            ("expressions depth 2 x contexts", gens.context_sessions(e2, first_id=1000000), ("value",))]
     ed = gens.exprs_deep()
     if tier == "quick":
